@@ -1,2 +1,6 @@
 import Model.Topic
 import Model.TopicSpec
+import Model.CommitLog
+import Model.Router.Types
+import Model.Router.Step
+import Model.Router.Monitors
